@@ -42,6 +42,8 @@ def generate(rng, tier="quick"):
     cfg = gen_cfg(rng, world, fault_rate)
     nops = rng.randint(3, 14 if tier == "quick" else 24)
     enabled = [k for k in VALIDATION_OPS if rng.random() < 0.7] or ["is_valid", "take_close"]
+    if rng.random() < 0.5:
+        enabled.append("gc")        # the collector may run between any two operations
     if rng.random() < 0.6:
         enabled += [k for k in RESOLVER_OPS if rng.random() < 0.7]
     refs = W.all_ref_strings(world["root"])
@@ -54,7 +56,9 @@ def generate(rng, tier="quick"):
     for _ in range(nops):
         kind = rng.choice(enabled)
         op = {"op": kind}
-        if kind in VALIDATION_OPS:
+        if kind == "gc":
+            pass
+        elif kind in VALIDATION_OPS:
             op["inst"] = rng.randrange(ninst)
             if kind in ("take_close", "take_drop", "take_cycle", "consumer_raises"):
                 op["k"] = rng.choice([0, 1, 1, 1, 2, 2, 3, 5])
@@ -120,6 +124,9 @@ def execute(scn):
             violations.append(viol)
         if out.pop("_instance_mutated", False):
             violations.append({"oracle": "instance-mutated", "where": i, "op": op["op"], "detail": {}})
+        if op["op"] == "gc":
+            log.append([i, "gc", digest(out)])
+            continue
         # ---- oracle: fresh validator, fresh resolver, same timeline state, same op
         fresh = Actor(world, cfg, router, calls=calls_before)
         fresh.resolver.__class__ = CountingResolver  # counts resolve() for the non-triviality rule only
